@@ -81,9 +81,29 @@ def generate(chk: Check, outs: str, npairs: int, ntriples: int, workers: int):
     g = run_tlc(chk.scratch, "MC_Gen_Imports", cfg, workers=workers, seed=chk.seed + 7, timeout=900)
     chk.add_tlc("Gen_Imports", g)
     trees = {(".".join(t["out"]), t["kind"]): t for t in g.printed.get("TREE", [])}
+    check_constants(chk, g.printed.get("CONST", []))
     scen = sorted(g.printed.get("SCEN", []), key=lambda s: json.dumps(s, sort_keys=True))
     chk.require(len(trees) >= 2 and len(scen) > 500, f"Gen_Imports emitted too little: {len(trees)} trees, {len(scen)} scenarios")
     return trees, scen
+
+
+def check_constants(chk: Check, consts: list) -> None:
+    """The specification's constants about PYTHON are compared with the interpreter: which names of the type strings are
+    typing constructs (typing.__all__), and the free names / datetime.<x> uses of every type string (ast)."""
+    import ast
+    import typing
+
+    chk.require(len(consts) == 1, "Gen_Imports printed no CONST line")
+    c = consts[0]
+    names = {n for t in c["types"] for n in t["ids"]}
+    spec_typing = set(c["pytyping"])
+    real_typing = {n for n in names if n in typing.__all__}
+    chk.require(spec_typing == real_typing, f"ImportsCore!PyTyping disagrees with typing.__all__ on {sorted(spec_typing ^ real_typing)}")
+    for t in c["types"]:
+        tree = ast.parse(t["text"], mode="eval")
+        quals = {n.attr for n in ast.walk(tree) if isinstance(n, ast.Attribute) and isinstance(n.value, ast.Name) and n.value.id == "datetime"}
+        ids = {n.id for n in ast.walk(tree) if isinstance(n, ast.Name)} | {"None" for n in ast.walk(tree) if isinstance(n, ast.Constant) and n.value is None}
+        chk.require(ids == set(t["ids"]) and quals == set(t["quals"]), f"ImportsCore!Types: {t['text']!r} has free names {sorted(ids)} / datetime uses {sorted(quals)}, the spec says {t['ids']} / {t['quals']}")
 
 
 def strip(locus: dict) -> dict:
